@@ -270,6 +270,7 @@ namespace xsimd
             jz = jk;
 
         recompute:
+            XSIMD_VERIF_LOOP_TICK();
             /* distill q[] into iq[] reversingly */
             for (i = 0, j = jz, z = q[jz]; j > 0; i++, j--)
             {
@@ -343,6 +344,7 @@ namespace xsimd
                 if (j == 0)
                 { /* need recomputation */
                     for (k = 1; iq[jk - k] == 0; k++)
+                        XSIMD_VERIF_LOOP_TICK()
                         ; /* k = no. of terms needed */
 
                     for (i = jz + 1; i <= jz + k; i++)
@@ -364,6 +366,7 @@ namespace xsimd
                 q0 -= 24;
                 while (iq[jz] == 0)
                 {
+                    XSIMD_VERIF_LOOP_TICK();
                     jz--;
                     q0 -= 24;
                 }
@@ -696,6 +699,7 @@ namespace xsimd
             tx[2] = z;
             nx = 3;
             while (tx[nx - 1] == zero)
+                XSIMD_VERIF_LOOP_TICK(),
                 nx--; /* skip zero term */
             n = __kernel_rem_pio2(tx, y, e0, nx, 2, two_over_pi);
             if (hx < 0)
